@@ -498,3 +498,17 @@ MUTANTS += [
 MUTANTS += [
  dict(name='seed-C20-legendre-lazy-cache', prop='C20', patch='seeded/C20-legendre-lazy-cache/patch.diff', expect='R-EFFECT/escape'),
 ]
+MUTANTS += [
+ dict(name='c02-add-final-subtract-gt', prop='C02', expect='R-CANON',
+      edits=[('include/core/fp.hpp', """            bool carry = this->val.add(a.val, b.val);
+            if (BigInt<bits>::compare(this->val, p) >= 0 || carry) {""", """            bool carry = this->val.add(a.val, b.val);
+            if (BigInt<bits>::compare(this->val, p) > 0 || carry) {""")]),
+ dict(name='c02-multiply2-ignores-shiftout', prop='C02', expect='R-CANON',
+      edits=[('include/core/fp.hpp', 'if (BigInt<bits>::compare(this->val, p) >= 0 || shift_out != 0) {', 'if (BigInt<bits>::compare(this->val, p) >= 0) {')]),
+ dict(name='c02-reduce-le', prop='C02', expect='R-CANON',
+      edits=[('include/core/fp.hpp', 'if (BigInt<bits>::compare(a, p) == -1) {', 'if (BigInt<bits>::compare(a, p) != 1) {')]),
+ dict(name='c02-benign-add-cond-reordered', prop='C02', benign=True, expect='',
+      edits=[('include/core/fp.hpp', """            bool carry = this->val.add(a.val, b.val);
+            if (BigInt<bits>::compare(this->val, p) >= 0 || carry) {""", """            bool carry = this->val.add(a.val, b.val);
+            if (carry || !(BigInt<bits>::compare(this->val, p) < 0)) {""")]),
+]
